@@ -47,12 +47,13 @@ func sortStrings(s []string) {
 func runC10(r *Run, verifDir string) {
 
 	r.Explain = append(r.Explain,
-		"C10 is decided structurally on package kmipclient: L1 an exchange (send + receive) happens only inside Client.doRountrip, between Lock and the deferred Unlock of the client's own mutex, which every constructor creates afresh; L2 once a request has been handed to the connection, every exit of the exchange with an error tears the connection down, so a late response can never be waiting in a connection that a later call will use; L3 hand-off channels are created per connection, a connection is replaced only after being closed, and a torn-down connection refuses both send and recv.")
+		"C10 is decided structurally on package kmipclient: L1 an exchange (send + receive) happens only inside Client.doRountrip, between Lock and the deferred Unlock of the client's own mutex, which every constructor creates afresh; L2 once a request has been handed to the connection, every exit of the exchange with an error tears the connection down, so a late response can never be waiting in a connection that a later call will use; L3 hand-off channels are created per connection, a connection is replaced only after being closed, and a torn-down connection refuses both send and recv; L4 the read loop hands over only the response it has just received (Recv, the successful assertion to *ResponseMessage and the assignment into the delivered value dominate the hand-off), so a server-originated message can never shift the responses of later calls.")
 	r.Assume = append(r.Assume, "the server answers requests of one connection in order (KMIP over a stream carries no request identifier the client could check)")
 	r.NotCov = append(r.NotCov, "the end-to-end statement under a real scheduler (interleavings are not enumerated)", "a server that answers out of order")
 	c10L1(r)
 	c10L2(r)
 	c10L3(r)
+	c10L4(r)
 }
 
 func c10L1(r *Run) {
@@ -752,6 +753,138 @@ func c11M6(r *Run) {
 		})
 		if !closes {
 			r.Bad("C11.M6", "kmipclient.conn.terminate/close-stream", tf.Pos(), "terminate does not close the stream: a loop blocked in Read/Write is never released")
+		}
+	}
+}
+
+// ---------------------------------------------------------------- L4
+
+// c10L4: the read loop hands a response to the waiting caller only when it has just received it: on every path to the
+// hand-off the message field of the value sent was assigned, in this iteration, the *ResponseMessage asserted from the
+// message that Stream.Recv filled in this iteration.
+func c10L4(r *Run) {
+	p := r.P
+	r.Rule("C10.L4", "the read loop delivers only the response it has just received: Recv -> assertion to *ResponseMessage -> store into the delivered value dominate the hand-off", 1)
+	rl := p.Func("kmipclient", "conn", "readloop")
+	if rl == nil {
+		r.Unk("C10.L4", "kmipclient.conn.readloop/fresh", token.NoPos, "anchor missing")
+		return
+	}
+	var recv *ssa.Call
+	type sendSite struct {
+		in  ssa.Instruction
+		val ssa.Value
+	}
+	var sends []sendSite
+	isRx := func(ch ssa.Value) bool {
+		c, ok := ch.Type().Underlying().(*types.Chan)
+		return ok && typeName(c.Elem()) == "rxMsg"
+	}
+	allInstrs(rl, func(in ssa.Instruction) {
+		switch x := in.(type) {
+		case *ssa.Call:
+			if id := callID(&x.Call); id.pkg == ttlvPath && id.recv == "Stream" && id.name == "Recv" {
+				recv = x
+			}
+		case *ssa.Send:
+			if isRx(x.Chan) {
+				sends = append(sends, sendSite{x, x.X})
+			}
+		case *ssa.Select:
+			for _, st := range x.States {
+				if st.Dir == types.SendOnly && isRx(st.Chan) {
+					sends = append(sends, sendSite{x, st.Send})
+				}
+			}
+		}
+	})
+	if recv == nil || len(sends) == 0 {
+		r.Unk("C10.L4", "kmipclient.conn.readloop/fresh", rl.Pos(), "Stream.Recv call or hand-off on the rx channel not found (recv=%v, sends=%d)", recv != nil, len(sends))
+		return
+	}
+	// the cell Recv decodes into
+	var msgCell ssa.Value
+	if len(recv.Call.Args) >= 2 {
+		a := recv.Call.Args[len(recv.Call.Args)-1]
+		if mi, ok := a.(*ssa.MakeInterface); ok {
+			a = mi.X
+		}
+		msgCell = a
+	}
+	fromRecv := func(v ssa.Value) (*ssa.TypeAssert, bool) {
+		// v = extract #0 of / or direct typeassert(*load of a field of msgCell*)
+		if ex, ok := v.(*ssa.Extract); ok {
+			v = ex.Tuple
+		}
+		ta, ok := v.(*ssa.TypeAssert)
+		if !ok || typeName(ta.AssertedType) != "ResponseMessage" {
+			return nil, false
+		}
+		ld, ok := ta.X.(*ssa.UnOp)
+		if !ok {
+			return nil, false
+		}
+		switch a := ld.X.(type) {
+		case *ssa.FieldAddr:
+			return ta, a.X == msgCell
+		default:
+			return ta, ld.X == msgCell
+		}
+	}
+	for i, s := range sends {
+		key := fmt.Sprintf("kmipclient.conn.readloop/fresh#%d", i+1)
+		ld, ok := s.val.(*ssa.UnOp)
+		var cell ssa.Value
+		if ok && ld.Op == token.MUL {
+			cell = ld.X
+		}
+		if cell == nil {
+			r.Unk("C10.L4", key, s.in.Pos(), "the delivered value is not a load of a local rxMsg variable")
+			continue
+		}
+		good := false
+		why := "no assignment of the just-received response to the delivered value dominates the hand-off"
+		for _, ref := range *cell.Referrers() {
+			fa, ok := ref.(*ssa.FieldAddr)
+			if !ok {
+				continue
+			}
+			if typeName(derefStruct(cell.Type()).Field(fa.Field).Type()) != "ResponseMessage" {
+				continue
+			}
+			for _, r2 := range *fa.Referrers() {
+				st, ok := r2.(*ssa.Store)
+				if !ok || st.Addr != ssa.Value(fa) {
+					continue
+				}
+				ta, fresh := fromRecv(st.Val)
+				if ta == nil || !fresh {
+					why = "the response stored into the delivered value is not the one asserted from the message Recv just filled"
+					continue
+				}
+				if !dominatesInstr(recv, ta) || !dominatesInstr(ta, st) || !dominatesInstr(st, s.in) {
+					why = "a path reaches the hand-off without passing Recv, the assertion to *ResponseMessage and the assignment (e.g. a server-originated message falls through): the previous response is delivered again and every later call receives its predecessor's response"
+					continue
+				}
+				if ta.CommaOk {
+					okEdge := false
+					for _, dc := range dominatingConds(st.Block()) {
+						if ex, isEx := dc.cond.(*ssa.Extract); isEx && ex.Tuple == ssa.Value(ta) && ex.Index == 1 && dc.outcome {
+							okEdge = true
+						}
+					}
+					if !okEdge {
+						why = "the assignment is not on the ok edge of the assertion"
+						continue
+					}
+				}
+				good = true
+			}
+		}
+		if good {
+			r.OK("C10.L4", key, s.in.Pos(), "Recv, the successful assertion to *ResponseMessage and the assignment into the delivered value all dominate the hand-off")
+		} else {
+			r.Bad("C10.L4", key, s.in.Pos(), "readloop: %s", why)
 		}
 	}
 }
